@@ -20,7 +20,6 @@ Proof.
   - repeat constructor; eexists; (split; [reflexivity|]); (split; [reflexivity|]);
       (split; [reflexivity|]); repeat constructor.
   - intros o i [H|[H|[H|[]]]]; inversion H; subst; vm_compute; split; congruence.
-  - vm_compute. reflexivity.
 Qed.
 
 Definition ex_sample_ops : list sop :=
